@@ -23,7 +23,7 @@ EAGER = ("create", "join", "exit")
 
 
 def build(ctx):
-    ok, log, failed = C.lake_build(DRIVERS)
+    ok, log, failed = C.lake_build(["acq_conc", "acq_chan"])   # (the executables only: a proof module that no longer checks is reported by prove)
     if not ok:
         ctx.corr_broken.append({"what": "model drivers do not build", "log": log[-2000:]})
         return None
